@@ -7,7 +7,8 @@
      (through Model/Time.v).
 
    The model mirrors the code WITH the repairs recorded in known_findings/fixed.txt and
-   with fixes/c04-optional-default-emit.patch and fixes/c04-map-wrapper-json.patch.
+   with fixes/c04-optional-default-emit.patch, fixes/c04-map-wrapper-json.patch and
+   fixes/c04-repeated-wrapper-json.patch.
 
    INTERFACE (imported read-only by C05 C07 C14 C20 - keep stable):
      json                      the AST (JPy v = a Python object that is not JSON: bytes,
@@ -351,7 +352,15 @@ Definition field_to_json (rec : obj -> json) (sc : schema) (incl : bool) (f : fd
         | Some w =>
             match v with
             | PNone => emit incl JNull
-            | _ => Some (scalar_to_json sc w (hint_elem f) v)
+            | _ =>
+                match fhint f with
+                | HList p =>              (* repeated wrapper: element by element, emitted even when empty *)
+                    match v with
+                    | PList l => Some (JList (map (scalar_to_json sc w p) l))
+                    | _ => Some (JPy v)
+                    end
+                | _ => Some (scalar_to_json sc w (hint_elem f) v)
+                end
             end
         | None =>
             match fhint f with
@@ -506,7 +515,7 @@ Definition value_from_json (rec : nat -> json -> result obj) (sc : schema) (f : 
     | Some w =>
         match hint_elem f with
         | PyDatetime | PyTimedelta => Err EOther          (* not a wrapper: outside wf_schema *)
-        | p => scalar_from_json sc w p j
+        | p => list_or_single (scalar_from_json sc w p) j
         end
     | None => list_or_single (elem_from_json rec sc TMessage (hint_elem f)) j
     end
